@@ -114,7 +114,7 @@ func c03Sweeps(r rm.Router, tier string) []sweep {
 	u3 := rs.Universe{Tokens: []string{"a", "{x}", "{t:*}"}, Roots: []string{"/a", "/{r}", "/"}, MaxSub: 1,
 		Segs: []string{"a", "b", ""}, MaxPath: 3, RMethods: []string{"GET", "POST"}, QMethods: []string{"GET", "POST", "PUT"}}
 	if tier == "thorough" {
-		u3 = rs.Universe{Tokens: []string{"a", "b", "{x}", "{n:[0-9]+}", "{t:*}"}, Roots: []string{"/", "/a", "/{r}", "/a/{r}", "/a/b"}, MaxSub: 2,
+		u3 = rs.Universe{Tokens: []string{"a", "b", "{x}", "{n:[0-9]+}", "{t:*}"}, Roots: []string{"/", "/a", "/{r}", "/a/{r}", "/a/b"}, MaxSub: 1,
 			Segs: []string{"a", "b", "7", ""}, MaxPath: 3, RMethods: []string{"GET", "POST"}, QMethods: []string{"GET", "POST", "PUT"}}
 		if r == rm.Curly {
 			u3.Tokens = append(u3.Tokens, "{s}.js")
